@@ -389,7 +389,7 @@ func main() {
 	out := lib.NewOut("C15", f)
 	out.Imports = "From Verif Require Import Model.Relay.\n"
 	out.Rule = "runs cycle through 8 client versions (1.8, 1.12.2, 1.16.5, 1.19.4, 1.20.1, 1.20.4, 1.21.1, 1.21.4); client-side and backend-side compression thresholds drawn independently from {-1,0,64,256}; per direction 50-200 packets: ids unknown to gate's Play registry for the version (1-3 byte VarInt ids), bodies random or repetitive with sizes 0-40, 41-300, threshold-3..threshold+2 of either side, 300-4096, 8-40 KiB; clientbound also KeepAlive and HeaderAndFooter built by gate's encoders (forwarded as-is), serverbound also unmatched KeepAlive replies (swallowed); both directions sent concurrently, in batches, 2/3 of the runs with the TCP writes cut at random byte positions; one case per direction; non-trivial = at least one packet is compressed on exactly one of the two sides; distinct = distinct case term"
-	runs := f.Count(24)
+	runs := f.Count(16)
 	seeds := make([]uint64, runs)
 	for i := range seeds {
 		seeds[i] = rng.U64()
